@@ -58,7 +58,7 @@ class NumIn:
 
     def as_fp(self):
         """the documented conversion to binary32: i32 -> f32 RNE, ratio = fl(a)/fl(b)"""
-        conv = lambda t: z3.fpToFP(z3.RNE(), z3.ToReal(t), F32)
+        from ..core import i32_to_f32 as conv
         return z3.If(self.is_real, self.r, z3.If(self.is_int, conv(self.i), z3.fpDiv(z3.RNE(), conv(self.a), conv(self.b))))
 
 
@@ -99,6 +99,23 @@ def result_number(ex, v):
             return "Rational", v.fields[0], v.fields[1], None
         return "Real", None, None, v.fields[0]
     raise Unsupported("result is not a concrete-variant Number: %r" % (v,))
+
+
+def number_cases(ex, v):
+    """like result_number, but also for a result that is an (input) number of symbolic variant: one case per feasible variant"""
+    if isinstance(v, Lazy):
+        tag = ex.lazy_tag(v)
+        names = ENUMS["Number"]
+        for i in ex.branches([tag == k for k in range(len(names))]):
+            nm = names[i]
+            if nm == "Integer":
+                yield "Integer", ex.project(("DC", v, nm), ("f", 0, "i32")), z3.IntVal(1), None
+            elif nm == "Rational":
+                yield "Rational", ex.project(("DC", v, nm), ("f", 0, "i32")), ex.project(("DC", v, nm), ("f", 1, "i32")), None
+            else:
+                yield "Real", None, None, ex.project(("DC", v, nm), ("f", 0, "R"))
+        return
+    yield result_number(ex, v)
 
 
 def fp_same(a, b):
